@@ -395,8 +395,10 @@ pub fn analyze(
 /// each flattened to a [`CachedDiagnostic`] for storage. A warm run reloads
 /// these and re-reports the warning instead of re-running pass2.
 ///
-/// `Cached` diagnostics are skipped: `Store::keep` already preserves a
-/// restored file's blob.
+/// `Cached` diagnostics are stored again next to the fresh ones: a global
+/// post-pass re-derives some warnings of a restored file fresh, and the blob
+/// written for those replaces the one `Store::keep` carried over, so it must
+/// hold the file's complete set.
 ///
 /// A warning whose token resolves to no file (`Builtin`/`External`) can't be
 /// cached, so it would vanish on a warm restore rather than be re-reported.
@@ -405,15 +407,14 @@ pub fn analyze(
 pub fn collect_diagnosed(check_error: &CheckError) -> HashMap<PathBuf, Vec<CachedDiagnostic>> {
     let mut ret: HashMap<PathBuf, Vec<CachedDiagnostic>> = HashMap::new();
     for diag in &check_error.related {
-        let Diag::Analyzer(error) = diag else {
-            continue;
+        let cached = match diag {
+            Diag::Analyzer(error) => CachedDiagnostic::from_error(error),
+            Diag::Cached(cached) => cached.clone(),
         };
         if let Some(path) = diag.path() {
-            ret.entry(path)
-                .or_default()
-                .push(CachedDiagnostic::from_error(error));
+            ret.entry(path).or_default().push(cached);
         } else {
-            debug!("diagnostic without a source path, not cached for warm restore: {error}");
+            debug!("diagnostic without a source path, not cached for warm restore: {diag}");
         }
     }
     ret
